@@ -5,7 +5,7 @@ from rules import anchors, common, c13
 
 CLAIMED = True
 TECHNIQUE = "static analysis over type-checked MIR: cross-check of separator constants between insertion, lookup and name validation; dominance of an ascending sort over the insertion loop; control dependence of the additive extension; aggregate field provenance for inheritance; loop-edge analysis of the longest-prefix walk; comparison normal form; single indexed delivery site; same-vector provenance of the index table"
-LEVEL_TEXT = """Static, all-paths decision of the structural clauses of the routing tree (the tree algorithm's exactness for every configuration and target is NOT claimed): (R11) the configuration accessors, builder setters and build() functions through which routing reads names, levels, additivity and appender lists return/store exactly the same-named field (C13.V7 re-evaluated); (R1) one separator constant in add/find, slice offset = len(SEP), and the name check uses SEP's character and length; (R2) the insertion loop iterates a vector on which an ascending sort by name length (or name) dominates the loop; (R3) the new node's appender list is extended with the parent's only on the additive==true edge; (R4) the leaf takes level/appenders from the parameters, the implied intermediate takes the parent's level and a clone of its appenders, chosen by rest.is_empty(); (R5) in find the only back edge is on the children.get(part)==Some arm which rebinds the node, None leaves the loop, the result is the last bound node; (R6) enabled is threshold >= level; (R7) exactly one indexed delivery site inside the loop over the node's own appender list, gated by enabled(record.level()); (R8) the name->index map is built from enumerate() over the same vector that becomes the appender table via into_iter() with no reordering in between; (R9) an existing child is never replaced: insert only on the get_mut==None edge, the Some edge recurses and returns; (R10) both recursive add calls forward rest/appenders/additive/level unchanged. (R15) with config_parsing: RawConfig::loggers hands every logger's name, level, appender list and additivity to the builder unconditionally (C14.K7 re-evaluated)."""
+LEVEL_TEXT = """Static, all-paths decision of the structural clauses of the routing tree (the tree algorithm's exactness for every configuration and target is NOT claimed): (R11) the configuration accessors, builder setters and build() functions through which routing reads names, levels, additivity and appender lists return/store exactly the same-named field (C13.V7 re-evaluated); (R1) one separator constant in add/find, slice offset = len(SEP), and the name check uses SEP's character and length; (R2) the insertion loop iterates a vector on which an ascending sort by name length (or name) dominates the loop; (R3) the new node's appender list is extended with the parent's only on the additive==true edge; (R4) the leaf takes level/appenders from the parameters, the implied intermediate takes the parent's level and a clone of its appenders, chosen by rest.is_empty(); (R5) in find the only back edge is on the children.get(part)==Some arm which rebinds the node, None leaves the loop, the result is the last bound node; (R6) enabled is threshold >= level; (R7) exactly one indexed delivery site inside the loop over the node's own appender list, gated by enabled(record.level()); (R8) the name->index map is built from enumerate() over the same vector that becomes the appender table via into_iter() with no reordering in between; (R9) an existing child is never replaced: insert only on the get_mut==None edge, the Some edge recurses and returns; (R10) both recursive add calls forward rest/appenders/additive/level unchanged. (R15) with config_parsing: RawConfig::loggers hands every logger's name, level, appender list and additivity to the builder unconditionally (C14.K7 re-evaluated). (R16) set_config publishes the installed logger's maximum (C02.T3 re-evaluated); (R17) one snapshot per call, also through callees (C15.A1); (R18) build_lossy keeps items as given (C13.V9)."""
 LEVEL_NOTE = "Trusted: rustc MIR/callee resolution; HashMap/str::find/split/sort_by_key semantics. Decides shape clauses on all paths of four functions; a shape-preserving semantic change inside the map keying (e.g. lower-casing a component) is not detected."
 EXPLANATION = """Decided: R1 separator agreement, R2 ancestors first, R3 additive polarity, R4 inheritance shape, R5 longest-prefix walk, R6 threshold comparator, R7 fan-out, R8 index-table agreement, R9 no replacement of existing nodes, R10 recursion forwards its arguments. Undecided: exactness of the tree algorithm for every configuration and target (recursion, HashMap semantics, empty components, stray colons)."""
 DECIDED = ["R1", "R2", "R3", "R4", "R5", "R6", "R7", "R8", "R9", "R10", "R11 config accessors/setters/build are faithful", "R12 a failing appender does not cost later attachments their delivery (C03.F3 re-evaluated)", "R13 every declared logger is inserted (no path through add() skips both the insertion and the recursion)", "R14 the published maximum ranges over every node of the tree (C02.T2 re-evaluated)"]
@@ -110,52 +110,10 @@ def rule_add_total(ctx, p, cfg, rid="R13"):
                       a.path, [q.path_between(a, 0, rb, avoid=list(must)) for rb in bad][:1]))
 
 
-def run_cfg(ctx, p, cfg):
-    from rules import accessors, c03
-    from rules import c02
-    c02.rule_tree_max(ctx, p, cfg, "R14")   # records reach their appenders through the log macros only if the published maximum covers every node (C02.T2 re-evaluated)
-    accessors.rule_fidelity(ctx, p, cfg, "R11")   # routing reads names, levels, additivity and appender lists through these
-    c03.rule_error_isolation(ctx, p, cfg, "R12")   # a failing appender does not cost the later attachments their delivery
-    rule_add_total(ctx, p, cfg, "R13")
-    c02.rule_install_publishes(ctx, p, cfg, "R16")   # ... and only if the maximum published with an installation is the installed logger's, not its predecessor's (C02.T3 re-evaluated)
-    if "config_parsing" in p.meta.get("features", []):
-        from rules import c14
-        c14.rule_raw_to_runtime(ctx, p, cfg, "R15")   # a logger declared in a file reaches the tree with the additivity, level and appenders written there (C14.K7 re-evaluated)
-    with ctx.rule("R1", "separator agreement", cfg) as r:
-        ro = anchors.routing(p)
-        a, f = ro["add"], ro["find"]
-        pos = add_params(p, ro)
-        sep = c13.separator_facts(p)
-        r.require(len(sep["routing_seps"]) >= 2 and len(set(sep["routing_seps"])) == 1, "one-separator", detail="separator constants in add/find: %s" % sep["routing_seps"])
-        s = sep["routing_sep"] or ""
-        # offset added to the found index before slicing == len(SEP)
-        offs = []
-        for c in a.calls("core::ops::index::Index::index"):
-            for x in walk(c.arg(1)):
-                if x[0] == "agg" and x[1].endswith("RangeFrom"):
-                    st = dict(x[3]).get("start")
-                    st = deep_strip(st)
-                    if st[0] == "bin" and st[1] == "Add" and strip(st[3])[0] == "const":
-                        offs.append(strip(st[3])[2])
-                    elif st[0] == "bin" and st[1] == "Add" and strip(st[2])[0] == "const":
-                        offs.append(strip(st[2])[2])
-                    else:
-                        offs.append(0)
-        uses_find = any((c.callee or "").endswith("::find") for c in a.calls())
-        if uses_find:
-            r.require(offs == [len(s)], "slice-offset-is-separator-length", fn=a, detail="rest = &path[idx + %s..] with len(SEP) = %d" % (offs, len(s)))
-            # the part is path[..idx] with the same idx
-            r.require(any(x[0] == "agg" and x[1].endswith("RangeTo") for c in a.calls("core::ops::index::Index::index") for x in walk(c.arg(1))), "part-is-prefix-up-to-match", fn=a, detail="part = &path[..idx]")
-        else:
-            r.require(any((c.callee or "").endswith("split_once") for c in a.calls()), "split_once-form", fn=a, detail="add splits with split_once(SEP)")
-        from rules import c13 as _c13
-        okl, why = _c13.name_language_ok(p)
-        r.require(sep["check_char"] == s[:1] and len(set(s)) == 1 and okl, "name-check-agrees", detail="name check: char %r; SEP %r; %s" % (sep["check_char"], s, why))
-        # both functions split the same argument kind (the path / target string)
-        fsplit = [c for c in f.calls() if (c.callee or "").startswith("core::str::<impl str>::") and (c.callee or "").rsplit("::", 1)[-1] in ("split", "find", "split_once")]
-        r.require(len(fsplit) == 1 and deep_strip(fsplit[0].arg(0)) == ("param", 2), "find-splits-the-target", fn=f, detail="find splits its path argument")
-
-    with ctx.rule("R2", "ancestors first", cfg) as r:
+def rule_ancestors_first(ctx, p, cfg, rid="R2"):
+    """the tree is built parents first from a total, ascending order of the names, and each logger is inserted with exactly its own
+    name, level, additivity and every appender it names"""
+    with ctx.rule(rid, "ancestors first", cfg) as r:
         ro = anchors.routing(p)
         sn = ro["shared_new"]
         site = ro["add_site"]
@@ -255,6 +213,58 @@ def run_cfg(ctx, p, cfg):
                   fail_detail="the appender indices handed to add() are not simply logger.appenders() resolved through the map (%s): an attachment can be dropped for some loggers, and additive descendants lose it too" % show(aa, 5))
         r.require(getters["config::runtime::Logger::name"] == pos["path"] - 1 and getters["config::runtime::Logger::additive"] == pos["additive"] - 1 and getters["config::runtime::Logger::level"] == pos["level"] - 1 and getters["config::runtime::Logger::appenders"] == pos["appenders"] - 1,
                   "loop-passes-own-settings", fn=sn, site=site.at, detail="add(root, logger.name(), indices(logger.appenders()), logger.additive(), logger.level()): argument positions %s" % getters)
+
+
+def run_cfg(ctx, p, cfg):
+    from rules import accessors, c03
+    from rules import c02
+    c02.rule_tree_max(ctx, p, cfg, "R14")   # records reach their appenders through the log macros only if the published maximum covers every node (C02.T2 re-evaluated)
+    accessors.rule_fidelity(ctx, p, cfg, "R11")   # routing reads names, levels, additivity and appender lists through these
+    c03.rule_error_isolation(ctx, p, cfg, "R12")   # a failing appender does not cost the later attachments their delivery
+    rule_add_total(ctx, p, cfg, "R13")
+    from rules import c15
+    c15.rule_one_snapshot(ctx, p, cfg, "R17")   # the node found and the appender table indexed belong to one configuration (C15.A1 re-evaluated)
+    from rules import c13
+    c13.rule_kept_as_given(ctx, p, cfg, "R18")   # the names, levels and lists the tree is built from are the ones declared (C13.V9 re-evaluated)
+    c02.rule_install_publishes(ctx, p, cfg, "R16")   # ... and only if the maximum published with an installation is the installed logger's, not its predecessor's (C02.T3 re-evaluated)
+    if "config_parsing" in p.meta.get("features", []):
+        from rules import c14
+        c14.rule_raw_to_runtime(ctx, p, cfg, "R15")   # a logger declared in a file reaches the tree with the additivity, level and appenders written there (C14.K7 re-evaluated)
+    with ctx.rule("R1", "separator agreement", cfg) as r:
+        ro = anchors.routing(p)
+        a, f = ro["add"], ro["find"]
+        pos = add_params(p, ro)
+        sep = c13.separator_facts(p)
+        r.require(len(sep["routing_seps"]) >= 2 and len(set(sep["routing_seps"])) == 1, "one-separator", detail="separator constants in add/find: %s" % sep["routing_seps"])
+        s = sep["routing_sep"] or ""
+        # offset added to the found index before slicing == len(SEP)
+        offs = []
+        for c in a.calls("core::ops::index::Index::index"):
+            for x in walk(c.arg(1)):
+                if x[0] == "agg" and x[1].endswith("RangeFrom"):
+                    st = dict(x[3]).get("start")
+                    st = deep_strip(st)
+                    if st[0] == "bin" and st[1] == "Add" and strip(st[3])[0] == "const":
+                        offs.append(strip(st[3])[2])
+                    elif st[0] == "bin" and st[1] == "Add" and strip(st[2])[0] == "const":
+                        offs.append(strip(st[2])[2])
+                    else:
+                        offs.append(0)
+        uses_find = any((c.callee or "").endswith("::find") for c in a.calls())
+        if uses_find:
+            r.require(offs == [len(s)], "slice-offset-is-separator-length", fn=a, detail="rest = &path[idx + %s..] with len(SEP) = %d" % (offs, len(s)))
+            # the part is path[..idx] with the same idx
+            r.require(any(x[0] == "agg" and x[1].endswith("RangeTo") for c in a.calls("core::ops::index::Index::index") for x in walk(c.arg(1))), "part-is-prefix-up-to-match", fn=a, detail="part = &path[..idx]")
+        else:
+            r.require(any((c.callee or "").endswith("split_once") for c in a.calls()), "split_once-form", fn=a, detail="add splits with split_once(SEP)")
+        from rules import c13 as _c13
+        okl, why = _c13.name_language_ok(p)
+        r.require(sep["check_char"] == s[:1] and len(set(s)) == 1 and okl, "name-check-agrees", detail="name check: char %r; SEP %r; %s" % (sep["check_char"], s, why))
+        # both functions split the same argument kind (the path / target string)
+        fsplit = [c for c in f.calls() if (c.callee or "").startswith("core::str::<impl str>::") and (c.callee or "").rsplit("::", 1)[-1] in ("split", "find", "split_once")]
+        r.require(len(fsplit) == 1 and deep_strip(fsplit[0].arg(0)) == ("param", 2), "find-splits-the-target", fn=f, detail="find splits its path argument")
+
+    rule_ancestors_first(ctx, p, cfg, "R2")
 
     with ctx.rule("R3", "additive polarity", cfg) as r:
         ro = anchors.routing(p)
